@@ -739,6 +739,24 @@ theorem trans_C13_C16_pauseArm_v1 (ph pauseTime : Int) :
     v1_pauseArm ⟨ph⟩ pauseTime = (⟨if ph = 2 then 1 else ph⟩, true, pauseTime) := by
   by_cases h : ph = 2 <;> simp [v1_pauseArm, v1_resume, h]
 
+/-! ### Batcher: the tail of `Enqueue` (count, insert, roll back) -/
+
+/-- v2 `Enqueue` after the admission checks, with the buffer's answer as an input: an operation the buffer refuses
+(full in error mode, shut down) leaves `NeedsCapacity()` exactly as it was and its error is returned; an accepted one
+adds exactly its cost (no wrap while the total stays below 2^32) - the repaired findings F1 / F2, now for every
+demand, cost and error value -/
+theorem trans_C03_C15_C19_enqueueTail_v2 (t c : Nat) (e : String) (h : t + c < 4294967296) :
+    v2_enqueueTail ⟨t⟩ c e = (if e = "" then (⟨((t + c : Nat) : Int)⟩, "") else (⟨(t : Int)⟩, e)) := by
+  have hadd := trans_C03_C14_incTarget_add_v2 t c h
+  have hsub := trans_C03_C11_incTarget_sub_v2 (t + c) c (by omega) (by omega)
+  simp only [v2_enqueueTail]
+  rw [hadd]
+  by_cases he : e = ""
+  · simp [he]
+  · simp only [he, bne_iff_ne, ne_eq, not_false_eq_true, if_true, if_false]
+    rw [show (-(c : Int)) = -((c : Nat) : Int) from rfl, hsub]
+    simp [decTarget]
+
 /-! ### non-vacuity: the translated functions on concrete values (also a readable trace of what they compute) -/
 
 example : v2_incTarget ⟨7⟩ 5 = ⟨12⟩ ∧ v2_incTarget ⟨7⟩ (-5) = ⟨2⟩ ∧ v2_incTarget ⟨7⟩ (-9) = ⟨0⟩ ∧ v2_incTarget ⟨7⟩ 0 = ⟨7⟩ := by decide
